@@ -566,6 +566,8 @@ class Interp:
                     return r if isinstance(op, ast.In) else (not r)
                 if (a is None or isinstance(a, (str, int))) and all(isinstance(x, Obj) for x in b):
                     return isinstance(op, ast.NotIn)
+                if isinstance(a, Obj) and "__eqclass__" not in a.attrs and all(x is None or isinstance(x, (str, int)) for x in b):
+                    return isinstance(op, ast.NotIn)      # an abstract object is none of these constants
             return TOP
         raise Unsupported("comparison %s" % type(op).__name__)
 
